@@ -231,6 +231,8 @@ class History:
         elif all(type(b).__name__ == "FixedWidthBinning" for b in h.binnings):
             ops += ["set_adaptive", "set_adaptive", "set_adaptive"]
         op = rng.choice(ops)
+        if op in ("iadd_copy", "iadd_peer", "iadd_grown") and np.dtype(h.dtype).kind in "iu" and float(np.max(np.asarray(h.errors2), initial=0)) > 1e16:
+            op = "idiv"  # repeated doubling of integer contents must not run into numpy's silent wrap-around either
         try:
             if op in ("fill", "fill_w", "fill_grow"):
                 v = self.values_for(h, 1, grow=(op == "fill_grow"))[0]
@@ -257,7 +259,11 @@ class History:
                 h.fill_n(v[:, 0] if h.ndim == 1 else v)
                 self.stats["grow"] += 1
             elif op == "imul":
-                h *= rng.choice([2, 0.5, 3.0, 2, 1000, 300])
+                c = rng.choice([2, 0.5, 3.0, 2, 1000, 300])
+                # integer contents: keep the squared errors (x c*c) far inside int64 - silent integer wrap-around of numpy is outside every statement
+                if np.dtype(h.dtype).kind in "iu" and float(np.max(np.asarray(h.errors2), initial=0)) * c * c > 1e15:
+                    c = 0.5
+                h *= c
             elif op == "iadd_peer":
                 o = self.pick(lambda o: o is not h and type(o) is type(h) and o.shape == h.shape)
                 if o is None:
